@@ -209,13 +209,16 @@ class Mamba2020Pass( UnrollSimPass ):
       if len(scc) == 1:
         return list(scc)[0]
 
-      for x in scc:
+      # Blocks that call blocking methods were replaced by greenlet wrappers
+      unwrap = { w: b for b, w in getattr( top._dag, 'blk_greenlet_mapping', {} ).items() }
+      scc_blks = [ unwrap.get( x, x ) for x in scc ]
+      for x in scc_blks:
         if x in onces:
           raise UpblkCyclicError("update_once blocks are not allowed to appear in a cycle. \n - " + \
                           "\n - ".join( [
                             f"{y.__name__} ({'@update_once' if y in onces else '@update'} " \
                             f"in 'top.{repr(top.get_update_block_host_component(y))[2:]}')"
-                            for y in scc] ))
+                            for y in scc_blks] ))
 
       scc_id += 1
       if _DEBUG: print( f"{'='*100}\n SCC{scc_id}\n{'='*100}" )
